@@ -170,7 +170,7 @@ func maxTag(i ledgerState, r refState) int {
 }
 
 func checkC18(w *World, r *Report) {
-	r.Explanation = "Structural clause of C18: (L-1) the SSA of the ledger package (generic origins of SetFinality/GetFinality/DelFinality/Commit, Set/Get/Del/Read and everything they call, including every memItems helper) is evaluated by an abstract interpreter over the finite abstract state of ONE key — per overlay: cached tag, updated tag, occurrences in the removed-key list; tree: absent or tag — and all operation sequences are explored to closure against the reference (a map with a consensus overlay and a mempool overlay of pending writes/tombstones): every read returns what the reference returns (a write wins over the overlay's own earlier tombstone while it is pending; cancelling the write reveals the tombstone or the committed value again), a commit leaves the tree equal to the consensus overlay's net effect and empties both overlays' pending state, mempool operations never change what consensus reads or commits; (L-2) the IAVL tree is mutated only inside FinalityLedger.Commit, removals before updates; tree iterators read the tree only; (L-3) no version is ever deleted or overwritten in the module and ImmutableLedgerAt(n) loads exactly version n into a fresh tree with fresh overlays, FinalityLedger.ImmutableLedgerAt delegating to it on every path; (L-4) a key buffer handed to tree.Set / tree.Remove inside a loop is allocated inside that loop (the tree keeps the bytes); (L-5) every module function whose error result is compared by identity with a sentinel (ErrNotFoundResult, ErrUnknownTrxType) hands back the sentinel itself, never a wrapped copy. (L-8) the removed-key list is a multiset: appendRemovedKey appends on every path and delRemovedKey takes back at most one entry per call (the cancel-delete operations are not run by the interpreter of L-1)."
+	r.Explanation = "Structural clause of C18: (L-1) the SSA of the ledger package (generic origins of SetFinality/GetFinality/DelFinality/Commit, Set/Get/Del/Read and everything they call, including every memItems helper) is evaluated by an abstract interpreter over the finite abstract state of ONE key — per overlay: cached tag, updated tag, occurrences in the removed-key list; tree: absent or tag — and all operation sequences are explored to closure against the reference (a map with a consensus overlay and a mempool overlay of pending writes/tombstones): every read returns what the reference returns (a write wins over the overlay's own earlier tombstone while it is pending; cancelling the write reveals the tombstone or the committed value again), a commit leaves the tree equal to the consensus overlay's net effect and empties both overlays' pending state, mempool operations never change what consensus reads or commits; (L-2) the IAVL tree is mutated only inside FinalityLedger.Commit, removals before updates; tree iterators read the tree only; (L-3) no version is ever deleted or overwritten in the module and ImmutableLedgerAt(n) loads exactly version n into a fresh tree with fresh overlays, FinalityLedger.ImmutableLedgerAt delegating to it on every path; (L-4) a key buffer handed to tree.Set / tree.Remove inside a loop is allocated inside that loop (the tree keeps the bytes); (L-5) every module function whose error result is compared by identity with a sentinel (ErrNotFoundResult, ErrUnknownTrxType) hands back the sentinel itself, never a wrapped copy. (L-8) the removed-key list is a multiset: appendRemovedKey appends on every path and delRemovedKey takes back at most one entry per call (the cancel-delete operations are not run by the interpreter of L-1). L-2 also closes the callers of FinalityLedger.Commit: the three controllers' Commit methods."
 	r.NotCovered = "iavl itself; reopen after close (needs the store); interaction between different keys beyond the per-key independence of maps and list membership; concurrency inside the ledger."
 
 	l1(w, r)
@@ -871,6 +871,15 @@ func l2(w *World, r *Report) {
 	} else {
 		r.Violate("L-2", "tree-writers", "the IAVL tree is written outside FinalityLedger.Commit (reads between commits would see uncommitted data): "+strings.Join(ws, "; "), nil, all...)
 	}
+	// a version is created by the consensus commit and by nothing else: the only
+	// callers of FinalityLedger.Commit are the controllers' own Commit methods (a
+	// Close that flushes pending work, a start-up repair or a query would persist a
+	// partially executed block under a version number nobody committed)
+	w.checkCallers(r, "L-2", fref{pkgLedger, "FinalityLedger", "Commit"}, map[string]string{
+		"account.(*AcctCtrler).Commit": "the account controller's commit",
+		"gov.(*GovCtrler).Commit":      "the governance controller's commit",
+		"stake.(*StakeCtrler).Commit":  "the stake controller's commit",
+	}, 3)
 	cm := needFn(r, "L-2", w, fref{pkgLedger, "FinalityLedger", "Commit"})
 	if cm != nil {
 		// on every path through Commit (helpers expanded) no removal follows an update
